@@ -17,8 +17,9 @@ RULE = ("correspondence: the correlation-map centre used by the upsampling and t
         "backgrounds; upsample 2..50 (several factors per frame shape, in sequence); buffer counts; both pipelines. "
         "Non-trivial: odd or non-square shape or start offset != 0 (distinct = case hashes).")
 ASSUMPTIONS = [
-    "NOT proved: that radial-gradient / background-subtracting / user templates peak at the disk centre, the 0.01 px float "
-    "bound and the 1.5/upsample bound (oracle only)",
+    "proved for hard-edged disks and sign-matched symmetric templates (flat_disk_exact; its instances are run on the "
+    "implementation); NOT proved: that the library's antialiased radial-gradient / background-subtracting masks peak at the "
+    "centre of an antialiased disk, the 0.01 px float bound and the 1.5/upsample bound (oracle only)",
 ]
 
 
@@ -36,6 +37,70 @@ def corr(ctx, drv):
             msgs.append(f"n={n}: upsampling centre {cen} does not undo the shift {roll}")
         ctx.corr_case("centres", {"n": n}, msgs, nontrivial=(n % 2 == 1), hkey=("cen", n))
     ctx.exhaustive_range = {"axis_length": "1..160"}
+    # the end-to-end theorem on the implementation: hypotheses by construction, conclusion observed
+    rng = np.random.default_rng(ctx.seed + 101)
+    for k in range(36 if ctx.tier == "thorough" else 9):
+        q = gen_sign_matched(rng, k)
+        ctx.corr_case("sign_matched", q, sign_matched(q), nontrivial=(q["shape"][0] != q["shape"][1] or q["size"] % 2 == 0))
+        ctx.count("sign_matched_" + q["weights"])
+
+
+def sign_matched(q):
+    """instance of the theorem C01.flat_disk_exact on the real code: hard-edged flat disk S on pixel p (log intensity
+    amp * 1_S), user template that is point-symmetric, positive on S and not positive off S"""
+    from libertem_blobfinder.common import patterns as pt
+    r, size = q["r"], q["size"]
+    yy, xx = np.mgrid[0:size, 0:size] - size // 2
+    d2 = yy ** 2 + xx ** 2
+    S = d2 <= r * r
+    if q["weights"] == "flat":
+        pos = np.ones(d2.shape)
+    elif q["weights"] == "gradient":            # larger on the rim than in the centre
+        pos = 0.2 + np.sqrt(d2) / r
+    else:                                       # irregular but point-symmetric
+        pos = 0.3 + 0.1 * (((yy * 3 + xx * 5) ** 2) % 7)
+    ring = (d2 > r * r) & (d2 <= (r + q["ring"]) ** 2)
+    tmpl = np.where(S, pos, np.where(ring, -q["neg"], 0.0))
+    pattern = pt.UserTemplate(tmpl, search=q["search"])
+    c = pattern.get_crop_size()
+    shape, p = tuple(q["shape"]), np.array(q["p"])
+    fy, fx = np.mgrid[0:shape[0], 0:shape[1]]
+    disk = ((fy - p[0]) ** 2 + (fx - p[1]) ** 2 <= r * r).astype(np.float64)
+    frame = (np.exp(q["amp"] * disk) - 1 + q["bg"]).astype(np.float32)
+    msgs = []
+    if not np.array_equal(tmpl, tmpl[::-1, ::-1]) and size % 2 == 1:
+        msgs.append("harness: template not point-symmetric")
+    starts = np.array(q["starts"])
+    for pipeline, runner in (("fast", impl.run_fast), ("full", impl.run_full)):
+        try:
+            outs = runner(frame, pattern, starts, b=q["b"])
+        except Exception as e:
+            msgs.append(f"{pipeline} raised {type(e).__name__}: {e}")
+            continue
+        cen, ref = np.asarray(outs[0]), np.asarray(outs[1], dtype=np.float64)
+        if np.any(cen != p):
+            msgs.append(f"{pipeline}: sign-matched template ({q['weights']}, r={r}, size {size}) on a flat disk at {p.tolist()}: "
+                        f"centres {cen.tolist()} (theorem flat_disk_exact: exactly the disk centre)")
+        elif np.abs(ref - p).max() > 1e-3:
+            msgs.append(f"{pipeline}: refined {ref.tolist()} differs from the disk centre {p.tolist()} by "
+                        f"{np.abs(ref - p).max():.2e} (theorem flat_disk_exact: exactly the disk centre)")
+    return msgs
+
+
+def gen_sign_matched(rng, k):
+    r = float(np.round(rng.uniform(2, 6), 2))
+    size = 2 * (int(np.ceil(r)) + 3) + (k % 2)          # odd and even template sizes
+    search = float(np.round(r + rng.uniform(3.2, 6), 2))
+    c = int(np.ceil(search))
+    shape = [int(rng.integers(2 * c + 6, 2 * c + 40)), int(rng.integers(2 * c + 6, 2 * c + 40))]
+    p = [int(rng.integers(c + 2, shape[0] - c - 2)), int(rng.integers(c + 2, shape[1] - c - 2))]
+    ext = int(np.ceil(r)) + 2
+    starts = [p] + [[p[0] + int(rng.integers(-(c - ext - 1), c - ext)), p[1] + int(rng.integers(-(c - ext - 1), c - ext))]
+                    for _ in range(3) if c - ext - 1 > 0]
+    starts = [s for s in starts if min(s) - c >= 0 and s[0] + c <= shape[0] and s[1] + c <= shape[1]]
+    return {"r": r, "size": size, "weights": ("flat", "gradient", "irregular")[k % 3], "ring": float(rng.uniform(0, 2.5)),
+            "neg": float(rng.uniform(0, 1.5)), "search": search, "shape": shape, "p": p, "starts": starts,
+            "amp": float(rng.uniform(0.5, 6)), "bg": float(rng.integers(0, 100)), "b": int(rng.integers(1, 5))}
 
 
 def disk_frame(shape, p, radius, amp, bg):
@@ -76,6 +141,8 @@ def gen_case(rng, k):
 
 
 def run_case(kind, q):
+    if kind == "sign_matched":
+        return sign_matched(q)
     rng = np.random.default_rng(q["seed"])
     pattern = impl.pattern_from(q["pattern"])
     for s_ in q.get("prior_shapes", []):   # the pattern object has been used for frames of other shapes before
@@ -173,6 +240,12 @@ def search(ctx, boost=1, focus=()):
         ctx.oracle_case("disk", q, msgs, key=classify("disk", q, msgs) if msgs else None,
                         nontrivial=(q["shape"][0] % 2 == 1 or q["shape"][1] % 2 == 1 or q["shape"][0] != q["shape"][1]))
         ctx.count("pattern_" + q["pattern"]["kind"])
+    # hard-edged disks with sign-matched user templates (the family of theorem flat_disk_exact), other seeds than in corr()
+    for k in range(n // 4):
+        q = gen_sign_matched(rng, k)
+        ctx.oracle_case("sign_matched", q, run_case("sign_matched", q),
+                        nontrivial=(q["shape"][0] != q["shape"][1] or q["size"] % 2 == 0))
+        ctx.count("sign_matched_" + q["weights"])
 
 
 def extra_coverage(ctx):
